@@ -5,6 +5,7 @@ package main
 import (
 	"fmt"
 	"math/rand"
+	"strings"
 
 	"github.com/evolbioinfo/goalign/align"
 	"github.com/evolbioinfo/goalign/distance/dna"
@@ -75,8 +76,8 @@ func c19(args []string) error {
 		}
 		seed := r.Int63()
 		var op c19op
-		kind := r.Intn(26)
-		if prot && kind >= 12 && kind != 25 {
+		kind := r.Intn(28)
+		if prot && kind >= 12 && kind != 25 && kind < 26 {
 			kind = r.Intn(12)
 		}
 		switch kind {
@@ -138,6 +139,31 @@ func c19(args []string) error {
 					start = rand.Intn(L - l + 1)
 					rand.Seed(seed)
 					return a.RandSubAlign(l, true)
+				}}
+		case 26, 27: // Split: contiguous blocks or interleaved (codon-like) partitions; every part is a copy
+			mode := r.Intn(2)
+			kcut := 1 + r.Intn(L-1)
+			op = c19op{"Split", func() string { return "OFresh " + coqStr("Split") },
+				func(a align.Alignment) (align.SeqBag, error) {
+					ps := align.NewPartitionSet(a.Length())
+					if mode == 0 {
+						k := kcut
+						ps.AddRange("A", "m", 0, k-1, 1)
+						ps.AddRange("B", "m", k, L-1, 1)
+					} else {
+						for o := 0; o < 3 && o < L; o++ {
+							ps.AddRange(fmt.Sprintf("p%d", o), "m", o, L-1, 3)
+						}
+					}
+					parts, e := a.Split(ps)
+					if e != nil || len(parts) == 0 {
+						return nil, e
+					}
+					// all parts but the first are overwritten at once, the first one by the experiment
+					for _, p := range parts[1:] {
+						mutateAll(p, '%')
+					}
+					return parts[0], nil
 				}}
 		case 11:
 			l := 1 + r.Intn(L)
@@ -233,11 +259,21 @@ func c19(args []string) error {
 				return nil, nil
 			}}
 		}
+		// writers and statistics are also run on alignments of unknown / undetermined alphabet
+		if strings.HasSuffix(op.name, ".WriteAlignment") || op.name == "statistics" {
+			switch r.Intn(3) {
+			case 0:
+				alpha = align.UNKNOWN
+			case 1:
+				alpha = align.BOTH
+			}
+		}
 		// experiment 1: call, mutate the result
 		a1, e := mkAlign(alpha, names, seqs)
 		if e != nil {
 			continue
 		}
+		alphabets := []int{a1.Alphabet()}
 		var res1 align.SeqBag
 		class, _ := guarded(20e9, func() error { var e error; res1, e = op.run(a1); return e })
 		if class != OutOk {
@@ -245,12 +281,14 @@ func c19(args []string) error {
 			res1 = nil
 		}
 		srcN1, srcS1 := alignContent(a1)
+		alphabets = append(alphabets, a1.Alphabet())
 		resN, resS := []string{}, []string{}
 		if res1 != nil {
 			resN, resS = alignContent(res1)
 			mutateAll(res1, '#')
 		}
 		srcN2, srcS2 := alignContent(a1)
+		alphabets = append(alphabets, a1.Alphabet())
 		// experiment 2: call on a fresh input, mutate the source
 		a2, _ := mkAlign(alpha, names, seqs)
 		var res2 align.SeqBag
@@ -263,9 +301,9 @@ func c19(args []string) error {
 		if res2 != nil {
 			res2N, res2S = alignContent(res2)
 		}
-		term := fmt.Sprintf("mk %s (%s) %s %s %s %s", coqRows(names, seqs), op.term(), coqRows(srcN1, srcS1), coqRows(resN, resS), coqRows(srcN2, srcS2), coqRows(res2N, res2S))
+		term := fmt.Sprintf("mk %s (%s) %s %s %s %s %s", coqRows(names, seqs), op.term(), coqRows(srcN1, srcS1), coqRows(resN, resS), coqRows(srcN2, srcS2), coqRows(res2N, res2S), coqZList(alphabets))
 		w.add(term, map[string]interface{}{"op": op.name, "opterm": op.term(), "alphabet": alpha, "names": names, "seqs": seqs, "class": class,
-			"src_after_call": srcS1, "result": resS, "src_after_result_mutated": srcS2, "result_after_src_mutated": res2S})
+			"alphabets": alphabets, "src_after_call": srcS1, "result": resS, "src_after_result_mutated": srcS2, "result_after_src_mutated": res2S})
 		stats[op.name+":"+class]++
 	}
 	if g.only >= 0 {
